@@ -27,11 +27,27 @@ def log(*a):
 
 
 def build_harness(race=False):
-    """(Re)build the harness against /repo's working tree with hooks on."""
+    """(Re)build the harness against /repo's working tree with hooks on.
+    With VERIF_REPO set to another checkout (used by bin/seedcheck to test a changed tree without touching
+    /repo) an alternative go.mod redirects the replace directive and a separate binary is built."""
+    global HARNESS
     os.makedirs(os.path.join(VERIF, ".work"), exist_ok=True)
-    shutil.copyfile(os.path.join(REPO, "go.sum"), os.path.join(HARNESS_DIR, "go.sum"))
+    cmd = ["go", "build", "-tags", "verif"]
+    if REPO != "/repo":
+        import hashlib
+        tag = hashlib.sha1(REPO.encode()).hexdigest()[:8]
+        HARNESS = os.path.join(HARNESS_DIR, "bin", "harness-" + tag)
+        modfile = os.path.join(VERIF, ".work", "go.%s.mod" % tag)
+        with open(os.path.join(HARNESS_DIR, "go.mod")) as f:
+            mod = f.read().replace("=> /repo", "=> " + REPO)
+        with open(modfile, "w") as f:
+            f.write(mod)
+        shutil.copyfile(os.path.join(REPO, "go.sum"), modfile[:-4] + ".sum")
+        cmd += ["-modfile", modfile]
+    else:
+        shutil.copyfile(os.path.join(REPO, "go.sum"), os.path.join(HARNESS_DIR, "go.sum"))
     out = HARNESS + ("-race" if race else "")
-    cmd = ["go", "build", "-tags", "verif", "-o", out]
+    cmd += ["-o", out]
     if race:
         cmd.insert(2, "-race")
     cmd.append(".")
@@ -228,6 +244,13 @@ class Report:
         self.exhaustive = True
         self.evaluations = 0
         self.distinct = 0
+        # replay files of earlier runs of this check are stale
+        import glob
+        for f in glob.glob(os.path.join(VERIF, "replays", prop + "-*")):
+            try:
+                os.remove(f)
+            except OSError:
+                pass
 
     def add_tlc(self, name, res):
         self.states += res.distinct
@@ -659,7 +682,8 @@ def validate_conc(work, trace, witness=False, timeout=600):
 
 def build_server_binary():
     """Builds /repo/cmd/gofakes3 (no hooks needed) for the kill -9 runs."""
-    out = os.path.join(VERIF, ".work", "gofakes3bin")
+    import hashlib
+    out = os.path.join(VERIF, ".work", "gofakes3bin" + ("" if REPO == "/repo" else "-" + hashlib.sha1(REPO.encode()).hexdigest()[:8]))
     p = subprocess.run(["go", "build", "-o", out, "./cmd/gofakes3"], cwd=REPO, env=GOENV, capture_output=True, text=True)
     if p.returncode != 0:
         raise Infra("building cmd/gofakes3 failed:\n" + p.stderr)
